@@ -104,14 +104,6 @@ def applyRow (r : Gen.Admix.FnRow) (f : List Rat) (grids : List (Array Rat)) (P 
     if r.isPulse then .ok (pulseRaw gs zz (grids.getD r.trapzGrid #[]) (r.coefs f) r.dest P)
     else .ok (newPopRaw gs zz (r.coefs f) P)
 
-/-- `phi_2D_to_3D_split_1/2(xx, phi)`: `phi_2D_to_3D_admix(phi, <generated literal>, xx, xx, xx)` -/
-def split2 (which : Nat) (xx : Array Rat) (P : Dens) : Res :=
-  match findRow "phi_2D_to_3D_admix" with
-  | none => .bad
-  | some r =>
-    if which = 1 then applyRow r [Gen.Admix.splitF_split_1] [xx, xx, xx] P
-    else if which = 2 then applyRow r [Gen.Admix.splitF_split_2] [xx, xx, xx] P
-    else .bad
 
 /-- `phi_1D_to_2D(xx, phi)`: the GENERATED diagonal value at interior points, 0 elsewhere -/
 def split1D (xx : Array Rat) (P : Dens) : Dens :=
@@ -157,6 +149,82 @@ def reorderAxes (axes : List Nat) (P : Dens) : Dens :=
 /-- `reorder_pops(phi, neworder)` (1-based); `none` = ValueError (`sorted(neworder) != [1..ndim]`) -/
 def reorderPops (neworder : List Nat) (P : Dens) : Option Dens :=
   if sortAsc neworder = (List.range P.shape.length).map (· + 1) then some (reorderAxes (neworder.map (· - 1)) P) else none
+
+/-! ### the public functions with their GENERATED loop / fancy-indexing structure (`Gen.Admix.loopRows`) -/
+
+def findLoop (name : String) : Option Gen.Admix.LoopRow := Gen.Admix.loopRows.find? fun r => r.name == name
+
+/-- one row of the scratch array (zero before) after the two fancy-index fills, in source order:
+    `a[row, i1] (=|+=) v1 ; a[row, i2] (=|+=) v2` — value at column `k`.  (`=` and `+=` agree for the first fill.) -/
+def depositFill (L : Gen.Admix.LoopRow) (zz : Array Rat) (phi adz : Rat) (k : Nat) : Rat :=
+  let lo := Gen.Admix.lowerIdx zz phi adz
+  let up := Gen.Admix.upperIdx zz phi adz
+  let vlo := Gen.Admix.fracLower zz phi adz * Gen.Admix.norm zz phi adz
+  let vup := Gen.Admix.fracUpper zz phi adz * Gen.Admix.norm zz phi adz
+  let i1 := if L.lowerFirst then lo else up
+  let v1 := if L.lowerFirst then vlo else vup
+  let i2 := if L.lowerFirst then up else lo
+  let v2 := if L.lowerFirst then vup else vlo
+  let s1 : Rat := if (k : Int) = i1 then v1 else 0
+  if (k : Int) = i2 then (if L.secondAdd then s1 + v2 else v2) else s1
+
+/-- a line that the loop nest `for v in range(lo, extent - hiOff)` does not visit keeps the input (the pulses work in place) -/
+def skippedByLoops (L : Gen.Admix.LoopRow) (shape : List Nat) (idx : Idx) : Bool :=
+  (List.range L.loopPos.length).any fun i =>
+    let x := idx.getD (L.loopPos.getD i 0) 0
+    let n := shape.getD (L.loopAxes.getD i 0) 0
+    decide (x < L.loopLo.getD i 0) || (decide (x < n) && decide (n ≤ x + L.loopHiOff.getD i 0))
+
+def newPopRawL (L : Gen.Admix.LoopRow) (grids : List (Array Rat)) (zz : Array Rat) (coefs : List Rat) (P : Dens) : Dens :=
+  { shape := P.shape ++ [zz.size]
+    f := fun idx => depositFill L zz (P.f idx.dropLast) (adZ grids coefs idx.dropLast) (idx.getLastD 0) }
+
+/-- scratch array `phi_int[j][k]` = row j (old destination index) filled at the bracket of cell j's mixed frequency;
+    `Numerics.trapz(phi_int, tg, axis=trapzAxis)` is written back along the destination axis -/
+def pulseRawL (L : Gen.Admix.LoopRow) (grids : List (Array Rat)) (zz tg : Array Rat) (coefs : List Rat) (dest : Nat) (P : Dens) : Dens :=
+  { shape := P.shape
+    f := fun idx =>
+      if skippedByLoops L P.shape idx then P.f idx else
+      if L.trapzAxis = 0 then
+        trapzLine tg fun j => depositFill L zz (P.f (idx.set dest j)) (adZ grids coefs (idx.set dest j)) (idx.getD dest 0)
+      else
+        trapzLine tg fun k => depositFill L zz (P.f idx) (adZ grids coefs idx) k }
+
+/-- the loop structures the model evaluates faithfully: one loop per non-destination axis (any nesting order), each loop
+    variable used at the position of the axis it ranges over, scratch array destination × destination, zeroed for every
+    line, rows indexed by `arange` over the destination extent, `trapz` along axis 0 or 1 -/
+def loopsModelled (r : Gen.Admix.FnRow) (L : Gen.Admix.LoopRow) : Bool :=
+  L.name == r.name &&
+  (if r.isPulse then
+     sortAsc L.loopPos == (List.range r.d).eraseIdx r.dest && L.loopAxes == L.loopPos
+       && L.loopLo.length == L.loopPos.length && L.loopHiOff.length == L.loopPos.length
+       && L.scratchDepth == L.loopPos.length
+       && L.scratchRows == r.dest && L.scratchCols == r.dest && L.rowAxis == r.dest
+       && decide (L.trapzAxis ≤ 1)
+   else L.loopPos.isEmpty && L.trapzAxis == 0)
+
+def applyRowL (r : Gen.Admix.FnRow) (L : Gen.Admix.LoopRow) (f : List Rat) (grids : List (Array Rat)) (P : Dens) : Res :=
+  if f.length != r.nf then .bad
+  else if r.guard f then .raises
+  else if !shapesOk r f grids P then .bad
+  else if !loopsModelled r L then .bad
+  else
+    let gs := r.gridOrder.map fun g => grids.getD g #[]
+    let zz := grids.getD r.newGrid #[]
+    if r.isPulse then .ok (pulseRawL L gs zz (grids.getD r.trapzGrid #[]) (r.coefs f) r.dest P)
+    else .ok (newPopRawL L gs zz (r.coefs f) P)
+
+/-- a public function by name, through its generated row and its generated loop structure (what K compares with the code) -/
+def applyByName (name : String) (f : List Rat) (grids : List (Array Rat)) (P : Dens) : Res :=
+  match findRow name, findLoop name with
+  | some r, some L => applyRowL r L f grids P
+  | _, _ => .bad
+
+/-- `phi_2D_to_3D_split_1/2(xx, phi)`: `phi_2D_to_3D_admix(phi, <generated literal>, xx, xx, xx)` -/
+def split2 (which : Nat) (xx : Array Rat) (P : Dens) : Res :=
+  if which = 1 then applyByName "phi_2D_to_3D_admix" [Gen.Admix.splitF_split_1] [xx, xx, xx] P
+  else if which = 2 then applyByName "phi_2D_to_3D_admix" [Gen.Admix.splitF_split_2] [xx, xx, xx] P
+  else .bad
 
 /-! ### total mass (full d-dimensional trapezoid sum) -/
 
